@@ -25,7 +25,6 @@ the script retired the worker meanwhile).
 
 from __future__ import annotations
 
-import inspect
 import logging
 import os
 import shutil
@@ -44,12 +43,14 @@ from vgi_rpc.rpc._transport import _serve_socket_threaded
 
 PROPERTY = "C33"
 RULE = (
-    "Family accept: idle_timeout ∈ {1,1.5,2,61}, max_connections ∈ {None,1,2}, 1–4 clients whose connect times are "
+    "Family accept: idle_timeout ∈ {1,1.5,2,3,61}, max_connections ∈ {None,1,2}, 1–4 clients whose connect times are "
     "placed at (predicted idle-timer or startup-grace expiry) + δ, δ ∈ {-0.6..+1.0}, or overlapping the previous "
     "connection; service durations ∈ {0..12 s} with 0–2 yields; schedule = run-length segments / PCT over acceptor, "
     "clients, timer and handler threads; line-level yield points in _serve_socket_threaded and its closures. "
-    "Non-trivial = the timer callback ran within one accept period (0.5 s logical) of a connection's arrival. "
-    "Family launch: 2–3 launcher threads × 1–3 ops from {launch(hash 0|1|2), worker exit(hash), worker crash(hash)} on "
+    "Non-trivial = an idle / grace timer fell due (not cancelled at an earlier instant) within one accept period (0.5 s "
+    "logical) of a connection's arrival. Family accept_edge: second client placed exactly at the predicted idle-timer expiry, lock-operation granularity, PCT "
+    "schedules with change points inside that instant. "
+    "Family launch: 2–3 launcher threads × 1–3 ops from {launch(hash 0|1|2), worker exit(hash), worker crash(hash), gc (the --gc pass)} on "
     "one scratch state dir, real filelock/probe/gc, fake _spawn_worker binding real unix sockets; schedule with "
     "line-level yield points in launch / gc_state_dir / _probe. Non-trivial = two launch() calls for the same hash "
     "overlapped. Distinct by SHA-1 of the canonical JSON case."
@@ -81,24 +82,16 @@ _GRACE = 60.0  # documented: startup grace = max(idle_timeout, 60)
 # =========================================================================== family: accept
 
 
-def _line_texts() -> dict[int, str]:
-    """lineno -> stripped source text of _serve_socket_threaded (text-based so it also works on mutated copies)."""
-    lines, start = inspect.getsourcelines(_serve_socket_threaded)
-    return {start + i: ln.strip() for i, ln in enumerate(lines)}
-
-
-_TEXT = _line_texts()
-
 _DURS = [0.0, 0.2, 0.5, 0.7, 1.0, 3.0, 12.0]
-_DELTAS = [-0.6, -0.5, -0.3, -0.1, 0.0, 0.1, 0.2, 0.3, 0.4, 0.5, 0.6, 1.0]
+_DELTAS = [-0.6, -0.5, -0.3, -0.1, 0.0, 0.0, 0.0, 0.0, 0.1, 0.2, 0.3, 0.4, 0.5, 0.6, 1.0]
 
 
 def _accept_cases() -> Any:
     @st.composite
     def build(draw: Any) -> dict[str, Any]:
-        idle = draw(st.sampled_from([1.0, 1.0, 1.5, 2.0, 2.0, 61.0]))
+        idle = draw(st.sampled_from([1.0, 1.0, 1.0, 1.5, 1.5, 2.0, 2.0, 2.0, 3.0, 61.0]))
         grace = max(idle, _GRACE)
-        shape = draw(st.sampled_from(["idle", "idle", "idle", "grace"])) if idle < 60 else "grace"
+        shape = draw(st.sampled_from(["idle", "idle", "idle", "idle", "idle", "grace"])) if idle < 60 else "grace"
         n = draw(st.integers(1, 4))
         clients: list[dict[str, Any]] = []
         t_end = 0.0  # predicted end of the latest connection (relative to loop start)
@@ -118,14 +111,51 @@ def _accept_cases() -> Any:
             clients.append({"at": at, "dur": dur, "yields": draw(st.integers(0, 2))})
             t_end = max(t_end, at + dur)
         nt = 1 + n + 4  # acceptor, clients, and the first few timer / handler threads
-        schedule = draw(st.one_of(
-            S.schedules(nt, min_segments=2, max_segments=12, max_run=12),
-            S.schedules(nt, min_segments=1, max_segments=8, max_run=40),
-            S.schedules(nt, min_segments=0, max_segments=6, max_run=15, tails=("rr",)),
-            S.pct_schedules(nt, max_steps=600, max_changes=4),
-        ))
+        trace = draw(st.sampled_from(["lines", "locks"]))
+        if trace == "locks":  # yield points only at lock / condition / event / thread operations
+            schedule = draw(st.one_of(
+                S.schedules(nt, min_segments=2, max_segments=14, max_run=5),
+                S.schedules(nt, min_segments=1, max_segments=8, max_run=12),
+                S.schedules(nt, min_segments=0, max_segments=6, max_run=6, tails=("rr",)),
+                S.pct_schedules(nt, max_steps=150, max_changes=4),
+            ))
+        else:
+            schedule = draw(st.one_of(
+                S.schedules(nt, min_segments=2, max_segments=12, max_run=12),
+                S.schedules(nt, min_segments=1, max_segments=8, max_run=40),
+                S.schedules(nt, min_segments=0, max_segments=6, max_run=15, tails=("rr",)),
+                S.pct_schedules(nt, max_steps=600, max_changes=4),
+            ))
         return {"idle_timeout": idle, "max_connections": draw(st.sampled_from([None, None, None, 1, 2])),
-                "clients": clients, "schedule": schedule}
+                "clients": clients, "trace": trace, "schedule": schedule}
+
+    return build()
+
+
+def _accept_edge_cases() -> Any:
+    """The idle timer falls due at the very instant a client connects: timer thread, client and acceptor are all runnable.
+
+    Lock-operation granularity and PCT schedules whose priority change points cover exactly the steps of that instant
+    (the interesting orders need "timer callback starts, is overtaken by accept + bookkeeping, then continues").
+    """
+
+    @st.composite
+    def build(draw: Any) -> dict[str, Any]:
+        idle = draw(st.sampled_from([1.0, 1.0, 1.5]))
+        d0 = draw(st.sampled_from([0.0, 0.2, 0.5, 0.7]))
+        clients = [{"at": 0.1, "dur": d0, "yields": 0},
+                   {"at": round(0.1 + d0 + idle, 3), "dur": draw(st.sampled_from([0.5, 3.0, 12.0])), "yields": draw(st.integers(0, 1))}]
+        if draw(st.sampled_from([False, False, True])):
+            clients.append({"at": clients[1]["at"], "dur": 0.2, "yields": 0})
+        nt = 1 + len(clients) + 4
+        trace = draw(st.sampled_from(["locks", "locks", "lines"]))
+        lo, hi = (25, 70) if trace == "locks" else (90, 180)  # measured: the critical instant begins at step 29–47 / 98–131
+        pct = st.builds(lambda prio, changes: {"mode": "pct", "prio": list(prio), "changes": sorted(changes)},
+                        st.permutations(list(range(nt))), st.lists(st.integers(lo, hi), min_size=1, max_size=5, unique=True))
+        schedule = draw(st.one_of(pct, pct, pct, S.pct_schedules(nt, max_steps=hi + 40, max_changes=6),
+                                  S.schedules(nt, min_segments=3, max_segments=14, max_run=4 if trace == "locks" else 10)))
+        return {"idle_timeout": idle, "max_connections": draw(st.sampled_from([None, None, 1])), "clients": clients,
+                "trace": trace, "schedule": schedule}
 
     return build()
 
@@ -153,26 +183,44 @@ def run_accept(case: dict[str, Any]) -> Outcome:
         t0 = sch.now
 
         class RecTimer(sch.threading.Timer):  # type: ignore[name-defined,misc]
+            _n = [0]
+
             def __init__(self, interval: float, function: Any, args: Any = None, kwargs: Any = None) -> None:
+                RecTimer._n[0] += 1
+                self.tid_ = RecTimer._n[0]
+
                 def fired(*a: Any, **k: Any) -> Any:
-                    hist.ev("timer_fire")
+                    hist.ev("timer_fire", self.tid_)
                     return function(*a, **k)
 
                 super().__init__(interval, fired, args, kwargs)
-                hist.ev("timer_armed", float(interval))
+                hist.ev("timer_armed", self.tid_, float(interval))
 
             def cancel(self) -> None:
-                hist.ev("timer_cancel")
+                hist.ev("timer_cancel", self.tid_)
                 super().cancel()
+
+        class RecLock(S.Lock):
+            """state_lock of the function under test: every successful acquisition is an event of the history."""
+
+            def acquire(self, blocking: bool = True, timeout: float = -1) -> bool:
+                ok = super().acquire(blocking, timeout)
+                if ok:
+                    hist.ev("state_locked")
+                return ok
 
         class NS:
             Timer = RecTimer
+
+            def Lock(self) -> Any:  # noqa: N802
+                return RecLock(sch, "state_lock")
 
             def __getattr__(self, name: str) -> Any:
                 return getattr(sch.threading, name)
 
         sch.patch(transport_mod, "threading", NS())
-        sch.trace_code(_serve_socket_threaded)
+        if case.get("trace", "lines") == "lines":
+            sch.trace_code(_serve_socket_threaded)
 
         class Conn:
             def __init__(self, cid: int, spec: dict[str, Any]) -> None:
@@ -229,16 +277,6 @@ def run_accept(case: dict[str, Any]) -> Outcome:
 
         listener = Listener()
 
-        def counted_probe(tag: Any) -> None:
-            # the acceptor arriving at `_cancel_timer_locked()` right after an accept has executed `conn_count += 1`
-            if (isinstance(tag, tuple) and len(tag) == 3 and tag[0] == "line" and tag[1] == "_serve_socket_threaded"
-                    and _TEXT.get(tag[2]) == "_cancel_timer_locked()"):
-                acc = [e for e in hist.events if e[3] in ("accept_return", "accept_timeout")]
-                if acc and acc[-1][3] == "accept_return" and not any(e[3] == "counted" and e[4] == acc[-1][4] for e in hist.events):
-                    hist.ev("counted", acc[-1][4])
-
-        sch.on_yield.append(counted_probe)
-
         def acceptor() -> None:
             hist.ev("loop_start")
             _serve_socket_threaded(Server(), listener, case["max_connections"], idle, Transport, "c33")  # type: ignore[arg-type]
@@ -263,8 +301,11 @@ def run_accept(case: dict[str, Any]) -> Outcome:
     timeouts = [e for e in hist.of("accept_timeout") if e[0] < ret_seq]
     accepts = {e[4]: e for e in hist.of("accept_return")}
     closes = {e[4]: e for e in hist.of("conn_closed")}
-    counted = {e[4]: e for e in hist.of("counted")}
     fires = hist.of("timer_fire")
+    locked = hist.of("state_locked")
+    # critical sections of the timer callback (taken by Timer threads) and of the acceptor
+    cb_sections = [e for e in locked if e[1].startswith("Timer")]
+    acc_sections = [e for e in locked if e[1] == "acceptor"]
     if not timeouts:
         raise S.SchedulerError("accept loop returned without an accept timeout")
     decision = timeouts[-1]  # the timeout after which the loop did not call accept() again
@@ -274,19 +315,26 @@ def run_accept(case: dict[str, Any]) -> Outcome:
     ever = [cid for cid, a in accepts.items() if a[0] < d_seq]
     tail = " ".join(f"{e[1]}@{e[2] - t0:.1f}:{e[3]}{list(e[4:]) if len(e) > 4 else ''}" for e in ev
                     if e[3] not in ("accept_enter",))[-900:]
+    cbs = [f for f in cb_sections if f[0] < d_seq]
+
+    def where(c: int) -> str:
+        """Position of the last timer-callback critical section relative to connection ``c``."""
+        if not cbs:
+            return "no_timer_fired"
+        cb = cbs[-1][0]
+        if cb < accepts[c][0]:
+            return "before_accept"
+        registered = [a for a in acc_sections if a[0] > accepts[c][0]]  # acceptor's lock section right after accept()
+        if not registered or cb < registered[0][0]:
+            return "between_accept_and_count"
+        if c not in closes or cb < closes[c][0]:
+            return "while_registered"
+        return "after_close"
+
     if active:
         c0 = min(active, key=lambda c: accepts[c][0])
-        last_fire = [f for f in fires if f[0] < d_seq]
-        if not last_fire:
-            sub = "no_timer_fired"
-        else:
-            f = last_fire[-1]
-            if f[0] < accepts[c0][0]:
-                sub = "accepted_after_timer_fired"
-            elif c0 not in counted or f[0] < counted[c0][0]:
-                sub = "timer_fired_between_accept_and_count"
-            else:
-                sub = "timer_fired_while_counted"
+        sub = {"before_accept": "accepted_after_timer_fired", "between_accept_and_count": "timer_fired_between_accept_and_count",
+               "while_registered": "timer_fired_after_accept_registered"}.get(where(c0), where(c0))
         unfinished = [c for c in active if c not in closes or closes[c][0] > ret_seq]
         out.fail(f"exit_while_serving/{sub}",
                  f"the accept loop stopped accepting at +{d_clock - t0:.1f}s while connection(s) {active} it had accepted were "
@@ -297,15 +345,9 @@ def run_accept(case: dict[str, Any]) -> Outcome:
             last = max(ever, key=lambda c: closes[c][0])  # the connection whose end began the zero-connection period
             z = closes[last][2]
             need, what = idle, "idle_timeout"
-            before = [f for f in fires if f[0] < d_seq]
-            if not before:
-                sub = "no_timer_fired"
-            elif before[-1][0] < accepts[last][0]:
-                sub = "stale_shutdown_request"  # the timer that caused the exit fired before that connection arrived
-            elif before[-1][0] < closes[last][0]:
-                sub = "timer_fired_during_connection"
-            else:
-                sub = "timer_fired_early"
+            sub = {"before_accept": "stale_shutdown_request",  # the callback that caused the exit ran before that connection arrived
+                   "between_accept_and_count": "stale_shutdown_request_between_accept_and_count",
+                   "while_registered": "timer_fired_during_connection", "after_close": "timer_fired_early"}.get(where(last), where(last))
             key = f"exit_early/after_connection/{sub}"
         else:
             z = t0
@@ -317,14 +359,17 @@ def run_accept(case: dict[str, Any]) -> Outcome:
 
     # ---- coverage
     arrivals = [e[2] for e in hist.of("connect")]
-    near = any(abs(f[2] - a) <= 0.5 + _EPS for f in fires for a in arrivals)
+    # a timer is "due" at armed + interval unless it was cancelled at an earlier instant
+    cancelled_at = {e[4]: e[2] for e in reversed(hist.of("timer_cancel"))}
+    due = [e[2] + e[5] for e in hist.of("timer_armed") if cancelled_at.get(e[4], float("inf")) >= e[2] + e[5] - _EPS]
+    near = any(abs(d - a) <= 0.5 + _EPS for d in due for a in arrivals)
     out.nontrivial = near
     out.label(f"idle={idle}", f"clients={len(clients)}", f"maxconn={case['max_connections']}",
               "timer_near_arrival" if near else "timer_far_from_arrival",
               f"fires={min(len(fires), 3)}", f"accepted={min(len(ever), 4)}",
               "conn_arrived_after_exit" if any(a > d_clock for a in arrivals) else "all_arrived_before_exit",
               f"preempt={'0' if res.preemptions == 0 else '1-3' if res.preemptions <= 3 else '4+'}",
-              f"sched={S._normalize_schedule(case.get('schedule'))['mode']}")
+              f"sched={S._normalize_schedule(case.get('schedule'))['mode']}", f"trace={case.get('trace', 'lines')}")
     if any(f[0] > accepts[c][0] and (c not in closes or f[0] < closes[c][0]) for f in fires for c in accepts):
         out.label("timer_fired_during_a_connection")
     if any(abs(f[2] - a[2]) <= _EPS for f in fires for a in accepts.values()):
@@ -345,7 +390,22 @@ _launch_op = st.one_of(
     st.tuples(st.just("launch"), st.just(0)).map(list),
     st.tuples(st.just("exit"), st.sampled_from([0, 0, 1, 2])).map(list),
     st.tuples(st.just("crash"), st.sampled_from([0, 0, 1, 2])).map(list),
+    st.just(["gc", 0]),
 )
+
+
+def _launch_schedule(draw: Any, n: int, trace: str) -> Any:
+    if trace == "locks":
+        return draw(st.one_of(
+            S.schedules(n, min_segments=2, max_segments=10, max_run=6),
+            S.schedules(n, min_segments=2, max_segments=6, max_run=14),
+            S.schedules(n, min_segments=1, max_segments=5, max_run=6, tails=("rr",)),
+            S.pct_schedules(n, max_steps=60, max_changes=3)))
+    return draw(st.one_of(
+        S.schedules(n, min_segments=2, max_segments=12, max_run=12),
+        S.schedules(n, min_segments=2, max_segments=6, max_run=50),
+        S.schedules(n, min_segments=1, max_segments=5, max_run=15, tails=("rr",)),
+        S.pct_schedules(n, max_steps=300, max_changes=3)))
 
 
 def _launch_cases() -> Any:
@@ -359,19 +419,32 @@ def _launch_cases() -> Any:
             ops.insert(draw(st.integers(0, len(ops))), ["launch", draw(st.sampled_from([0, 0, 0, 1]))])
             threads.append(ops)
         trace = draw(st.sampled_from(["lines", "locks"]))
-        if trace == "locks":
-            schedule = draw(st.one_of(
-                S.schedules(n, min_segments=2, max_segments=10, max_run=6),
-                S.schedules(n, min_segments=1, max_segments=5, max_run=6, tails=("rr",)),
-                S.pct_schedules(n, max_steps=60, max_changes=3)))
-        else:
-            schedule = draw(st.one_of(
-                S.schedules(n, min_segments=2, max_segments=12, max_run=12),
-                S.schedules(n, min_segments=2, max_segments=6, max_run=50),
-                S.schedules(n, min_segments=1, max_segments=5, max_run=15, tails=("rr",)),
-                S.pct_schedules(n, max_steps=300, max_changes=3)))
-        return {"threads": threads, "trace": trace, "schedule": schedule,
+        return {"threads": threads, "trace": trace, "schedule": _launch_schedule(draw, n, trace),
                 "prestart": draw(st.lists(st.sampled_from([0, 1, 2]), max_size=2, unique=True))}
+
+    return build()
+
+
+def _launch_gc_cases() -> Any:
+    """A launcher of another hash finishes and garbage-collects the state dir while hash #0 is being launched / re-launched."""
+
+    @st.composite
+    def build(draw: Any) -> dict[str, Any]:
+        other = draw(st.sampled_from([1, 2]))
+        first = draw(st.sampled_from([["launch", other], ["launch", other], ["gc", 0]]))  # gc = `vgi-rpc-launcher --gc`
+        threads: list[list[Any]] = [[first] + draw(st.lists(st.sampled_from([["launch", other], ["launch", 0], ["gc", 0]]), max_size=1))]
+        second: list[Any] = [["launch", 0]]
+        if draw(st.booleans()):
+            second.insert(0, draw(st.sampled_from([["crash", 0], ["exit", 0]])))
+        second.append(draw(st.sampled_from([["launch", 0], ["launch", 0], ["crash", 0], ["launch", other]])))
+        threads.append(second)
+        if draw(st.booleans()):
+            threads.append([["launch", 0]] + draw(st.lists(st.sampled_from([["launch", 0], ["exit", 0], ["launch", other]]), max_size=1)))
+        order = draw(st.permutations(list(range(len(threads)))))
+        threads = [threads[i] for i in order]
+        trace = draw(st.sampled_from(["lines", "locks"]))
+        return {"threads": threads, "trace": trace, "schedule": _launch_schedule(draw, len(threads), trace),
+                "prestart": draw(st.sampled_from([[], [0], [0], [other]]))}
 
     return build()
 
@@ -560,6 +633,10 @@ def run_launch(case: dict[str, Any]) -> Outcome:
                     h = int(op[1])
                     if op[0] == "launch":
                         do_launch(ti, h)
+                    elif op[0] == "gc":  # what `vgi-rpc-launcher --gc` runs
+                        ev("gc_begin")
+                        r = launcher_mod.gc_state_dir(scratch)
+                        ev("gc_end", len(r.cleaned))
                     else:
                         live = [w for w in workers if w.h == h and w.live]
                         if live:
@@ -570,6 +647,11 @@ def run_launch(case: dict[str, Any]) -> Outcome:
                 sch.spawn(worker_thread, ti, script, name=f"t{ti}")
             res = sch.run()
             res.raise_for_harness(allow_deadlock=False)
+            # every history ends with one more (sequential) launch per hash that still has a live worker: it must
+            # find that worker — this is how a worker orphaned by somebody's unlink becomes visible
+            for h in sorted({w.h for w in workers if w.live}):
+                ev("final_launch", h)
+                do_launch(99, h)
             state["contended"] = any(isinstance(t, tuple) and t and t[0] == "block" and isinstance(t[1], tuple) and t[1][0] == "event"
                                      for _, _, t in res.trace)
     finally:
@@ -611,5 +693,7 @@ def run_launch(case: dict[str, Any]) -> Outcome:
 
 
 def main(chk: Check) -> None:
-    chk.explore("accept", _accept_cases(), run_accept, quick=600, thorough=25000)
-    chk.explore("launch", _launch_cases(), run_launch, quick=500, thorough=12000)
+    chk.explore("accept", _accept_cases(), run_accept, quick=450, thorough=25000)
+    chk.explore("accept_edge", _accept_edge_cases(), run_accept, quick=900, thorough=16000)
+    chk.explore("launch", _launch_cases(), run_launch, quick=350, thorough=12000)
+    chk.explore("launch_gc", _launch_gc_cases(), run_launch, quick=600, thorough=16000)
